@@ -53,12 +53,12 @@ def detection_inputs(draw, min_vocab=2, max_vocab=5, sum_le_one=True, same_event
     for s in side:
         def true_tags():
             n = draw(st.sampled_from([0, 1, 1, 1, 2]))
-            return [draw(st.one_of(st.integers(0, nv - 1), st.sampled_from([-1, -2]))) for _ in range(n)]  # negative = out of vocabulary
+            return [draw(st.one_of(st.integers(0, nv - 1), st.sampled_from([-1, -2, -3, -4, -5]))) for _ in range(n)]  # negative = out of vocabulary
 
         def pred_tags():
             sc = draw(scores_for(nv, sum_le_one=sum_le_one))
             if draw(st.integers(0, 3)) == 0:
-                sc.append([-1, draw(st.integers(0, 64)) / 64])  # out-of-vocabulary predicted tag, arbitrary score
+                sc.append([draw(st.sampled_from([-1, -3, -4, -5])), draw(st.integers(0, 64)) / 64])  # out-of-vocabulary predicted tag, arbitrary score
             return sc
 
         anns, preds = [], []
@@ -67,12 +67,12 @@ def detection_inputs(draw, min_vocab=2, max_vocab=5, sum_le_one=True, same_event
             for _ in range(n):
                 g = draw(geometry(allow_none=allow_geometryless))
                 anns.append({"geometry": g, "tags": true_tags()})
-                preds.append({"geometry": g, "tags": pred_tags(), "same_as": len(anns) - 1})
+                preds.append({"geometry": g, "tags": pred_tags(), "same_as": len(anns) - 1, "conf": draw(st.integers(0, 20)) / 20})
         else:
             for _ in range(draw(st.integers(0, 4))):
                 anns.append({"geometry": draw(geometry(allow_none=allow_geometryless)), "tags": true_tags()})
             for _ in range(draw(st.integers(0, 4))):
-                preds.append({"geometry": draw(geometry(allow_none=allow_geometryless)), "tags": pred_tags()})
+                preds.append({"geometry": draw(geometry(allow_none=allow_geometryless)), "tags": pred_tags(), "conf": draw(st.integers(0, 20)) / 20})
         c = {"side": s, "anns": anns, "preds": preds}
         if clip_tags:
             if multilabel:
@@ -88,6 +88,25 @@ def _uid(n):
     return str(uuidlib.UUID(int=n))
 
 
+def ref_affinity(g1, g2):
+    """Closed-form affinity for the two geometry kinds generated here (TimeInterval, BoundingBox): area IoU of two boxes,
+    1-D IoU of the time extents when either is a TimeInterval (neither kind is buffered by compute_affinity)."""
+    def ext(g):
+        c = g["coordinates"]
+        return (c[0], c[1], None, None) if g["type"] == "TimeInterval" else (c[0], c[2], c[1], c[3])
+
+    s1, e1, l1, h1 = ext(g1)
+    s2, e2, l2, h2 = ext(g2)
+    it = max(0.0, min(e1, e2) - max(s1, s2))
+    if l1 is None or l2 is None:
+        union = (e1 - s1) + (e2 - s2) - it
+        return 0.0 if union == 0 else min(1.0, it / union)
+    jf = max(0.0, min(h1, h2) - max(l1, l2))
+    inter = it * jf
+    union = (e1 - s1) * (h1 - l1) + (e2 - s2) * (h2 - l2) - inter
+    return 0.0 if union == 0 else min(1.0, inter / union)
+
+
 def build(spec, order=None):
     """-> (clip_predictions, clip_annotations, vocabulary tags, index) ; index maps uuids to spec positions."""
     from soundevent import data
@@ -97,8 +116,12 @@ def build(spec, order=None):
 
     vocab = [tag(v) for v in spec["vocab"]]
 
+    rest = [t for t in TAG_POOL if list(t) not in [list(v) for v in spec["vocab"]]]
+    outside = [tag(t) for t in OOV + rest]
+
     def tag_of(i):
-        return vocab[i] if i >= 0 else tag(OOV[(-i - 1) % len(OOV)])
+        # negative = out of vocabulary: either never in any vocabulary (OOV) or a pool tag absent from THIS vocabulary
+        return vocab[i] if i >= 0 else outside[(-i - 1) % len(outside)]
 
     rec = data.Recording(uuid=_uid(1), path="r.wav", duration=100.0, channels=1, samplerate=44100)
     cps, cas = [], []
@@ -122,7 +145,7 @@ def build(spec, order=None):
                 se = ses[p["same_as"]]
             else:
                 se = data.SoundEvent(uuid=_uid(300000 + ci * 1000 + pi), recording=rec, geometry=data.geometry_validate(p["geometry"], mode="dict") if p["geometry"] else None)
-            pred = data.SoundEventPrediction(uuid=_uid(400000 + ci * 1000 + pi), sound_event=se, score=0.5, tags=[data.PredictedTag(tag=tag_of(i), score=s) for i, s in p["tags"]])
+            pred = data.SoundEventPrediction(uuid=_uid(400000 + ci * 1000 + pi), sound_event=se, score=p.get("conf", 0.5), tags=[data.PredictedTag(tag=tag_of(i), score=s) for i, s in p["tags"]])
             index["pred"][str(pred.uuid)] = (ci, pi)
             preds.append(pred)
         if c["side"] in ("both", "ann"):
